@@ -1740,6 +1740,9 @@ func (e *Extractor) Document() (*model.Document, []Warning, error) {
 		}
 
 		doc.AddPage(modelPage)
+		// AddPage numbers pages by position; keep the page's number in the source
+		// document so that page metadata stays true when a subset is selected
+		modelPage.Number = pageNum + 1
 	}
 
 	return doc, e.warnings, nil
